@@ -255,7 +255,7 @@ def gen(rng, shard, nshards, n_ed, n_p256, table, rms):
         if fm is not None:
             Q, inp, hv, (i, j) = fm
             cases.append(case1("s p256 vtrunc %s %s %d %s" % (W.P256.encode_compressed(Q).hex(), inp.hex(), rm, hv.hex()), expect_p256(Q, inp, rm, hv, None),
-                               ["false-match-p256", "structured-s:kept-bits-all-zero", "structured-s:hidden-part-zero", "structured-s:hidden-part-all-ones", "structured-s:baby-index-zero",
+                               ["false-match-p256", "p256-xseq:n=199", "p256-xseq:n=200", "p256-xseq:n=0", "p256-xseq:passes-through-infinity", "p256-xseq:P0=P1", "p256-xseq:P0-infinite", "structured-s:kept-bits-all-zero", "structured-s:hidden-part-zero", "structured-s:hidden-part-all-ones", "structured-s:baby-index-zero",
                     "structured-s:giant-index-max", "false-match-p256:" + ("j=0" if j == 0 else "j>0")], "constructed 48-bit table hit"))
     # ---- Ed25519 ----
     for it in range(n_ed):
@@ -450,6 +450,31 @@ def gen(rng, shard, nshards, n_ed, n_p256, table, rms):
         inp = overwrite_last_bits(prepared, rm, rng.choice(["zero", "ones", "random"]), rng)
         cases.append(case1("s p256 vtrunc %s %s %d %s" % (pk.hex(), inp.hex(), rm, hv2.hex()), expect_p256(Q, inp, rm, hv2, standard),
                            ["p256", "complete", "structured-s", "structured-s:" + tag], "p256 completeness on structured s"))
+    # the public x-only helpers the P-256 search is built on: to_x_affine_diff / x_sequence_vartime on P_i = (k0 + i*(k1-k0))*G, with
+    # sequence lengths around the internal batch size, sequences that pass through the point at infinity, P0 = P1, P0 or P1 infinite
+    for it in range(max(2, n_p256 // 8)):
+        t = rng.randrange(7)
+        k0 = rng.randrange(1, N); dk = rng.randrange(1, N)
+        nn_ = rng.choice([0, 1, 2, 3, 100, 101, 197, 198, 199, 200, 201, 202, 396, 397, 398, 399, 400, 401, rng.randrange(0, 450)])
+        cl2 = ["p256-xseq", "p256-xseq:n=%s" % (nn_ if nn_ in (0, 1, 198, 199, 200, 201, 399, 400) else "other")]
+        if t == 0:
+            k0 = 0; cl2.append("p256-xseq:P0-infinite")
+        elif t == 1:
+            dk = (-k0) % N; cl2.append("p256-xseq:P1-infinite")
+        elif t == 2:
+            dk = 0; cl2.append("p256-xseq:P0=P1")
+        elif t == 3 and nn_ > 2:
+            j = rng.randrange(2, nn_ + 2)
+            k0 = (-j * dk) % N; cl2.append("p256-xseq:passes-through-infinity")
+        elif t == 4:
+            dk = (-2 * k0) % N; cl2.append("p256-xseq:P1=-P0")
+        k1 = (k0 + dk) % N
+
+        def xof(k):
+            P = Cw.mulgen(k % N) if k % N else None
+            return (1 if P is None else P[0]).to_bytes(32, "little").hex()
+        e = " ".join([xof(k0), xof(k1), xof(dk), xof(k0 + nn_ * dk), xof(k0 + (nn_ + 1) * dk)]) + " " + ("".join(xof(k0 + i * dk) for i in range(nn_)) or "-")
+        cases.append(case1("g p256 wextra xseq %s %s %d" % (k0.to_bytes(32, "little").hex(), k1.to_bytes(32, "little").hex(), nn_), "OK " + e, cl2, "x_sequence_vartime"))
     # prepare_truncate on short / boundary forms
     for it in range(max(1, n_p256 // 4)):
         d = rng.randrange(1, N)
